@@ -9,8 +9,8 @@ COQ_EXTRACT = "Extract_C18.v"
 LEVEL = "proof"
 RULE = ("cases = histories of creating (from an assignment, from a constant), copying, assigning (incl. self-assignment), combining (unary, binary, "
         "ternary apply, ExtendWith, GetMtbddForPrefix) and destroying MTBDD objects that share sub-graphs in the one process-wide node store, for "
-        "unsigned and std::set<unsigned> leaves: corpus; ALL histories of <= 3 steps over 1 variable and of <= 2 steps over 2 variables with leaf "
-        "values {0,1} (op alphabet: every construction of full length, constants, copy, assignment of every pair, 2 unary and 2 binary codes, destroy); "
+        "unsigned and std::set<unsigned> leaves: corpus; ALL histories of <= 3 steps over 1 and over 2 variables with leaf values {0,1} "
+        "(op alphabet: every construction of full length, constants, copy, assignment of every pair, 2 unary and 2 binary codes, destroy); "
         "targeted families (shared sub-graphs released in every order, self-assignment of a sole owner, assignment over a shared / unshared root, "
         "apply whose result is an operand or a constant, unused and shared sinks, early return of construction, extension and prefix selection) and "
         "random histories of up to 30 steps with small leaf domains; after EVERY step both unique-table sizes and the values of all live objects on "
@@ -38,10 +38,11 @@ FLAVOURS = {"quick": ["plain"], "thorough": ["plain", "asan"]}
 def exhaustive(tier):
     out = []
     for n in (1, 2, 3): out += G.enum_hist("u", 1, n)
-    for n in (1, 2): out += G.enum_hist("u", 2, n)
-    for n in (1, 2): out += G.enum_hist("s", 1, n, vals=(0, 5), f1=(0, 3), f2=(0, 2))
+    for n in (1, 2, 3): out += G.enum_hist("u", 2, n)
+    for n in (1, 2, 3): out += G.enum_hist("s", 1, n, vals=(0, 5), f1=(0, 3), f2=(0, 2))
     if tier == "thorough":
-        out += G.enum_hist("s", 1, 3, vals=(0, 5), f1=(0, 3), f2=(0, 2))
+        out += G.enum_hist("s", 2, 3, vals=(0, 5), f1=(0, 3), f2=(0, 2))
+        out += G.enum_hist("u", 1, 4)
     return out
 
 def targeted(rng, tier):
@@ -129,7 +130,7 @@ def cases(rng, tier):
     cs = [(l, "corpus") for l in CORPUS]
     cs += [(l, "exhaustive") for l in exhaustive(tier)]
     cs += [(l, "targeted") for l in targeted(rng, tier)]
-    n = 2500 if tier == "quick" else 50000
+    n = 6000 if tier == "quick" else 100000
     for _ in range(n):
         dom = rng.choice("us")
         nv = rng.choice((1, 2, 2, 3, 3))
@@ -139,10 +140,11 @@ def cases(rng, tier):
                                destroy_all=rng.random() < 0.3).fmt(), "random"))
     return cs
 
-EXHAUSTIVE_SLICES = ("ALL histories of exactly 1, 2 and 3 steps over 1 variable and of 1 and 2 steps over 2 variables (unsigned leaves {0,1}; set leaves {0,5} with 1 "
-                     "variable up to 2 steps, 3 steps in the thorough tier) over the op alphabet: every construction of full length with (v,d) in vals^2, both "
-                     "constants, copy of every live object, assignment of every ordered pair incl. self, 2 unary and 2 binary codes on every operand tuple, "
-                     "destroy of every live object; every history is followed by the destruction of all remaining objects (the run as a whole is not exhaustive)")
+EXHAUSTIVE_SLICES = ("ALL histories of exactly 1, 2 and 3 steps over 1 variable and over 2 variables with unsigned leaves {0,1}, and over 1 variable with set "
+                     "leaves {0,5} (2 variables and 4-step histories in the thorough tier), over the op alphabet: every construction of full length with "
+                     "(v,d) in vals^2, both constants, copy of every live object, assignment of every ordered pair incl. self, 2 unary and 2 binary codes on "
+                     "every operand tuple, destroy of every live object; every history is followed by the destruction of all remaining objects (the run as "
+                     "a whole is not exhaustive)")
 
 CORPUS = [
     "c18 u 0 K 0 1 D 0",
